@@ -68,11 +68,15 @@ NestedParams ==
   {Named([type |-> "array", cf |-> "pipes",
           items |-> [type |-> "array", cf |-> "csv", maxItems |-> 2, items |-> [type |-> "integer", maximum |-> 10]]], loc, req) :
       loc \in {"query", "header"}, req \in BOOLEAN}
+\* nested arrays whose innermost items need a converter but carry no validation at all
+NestedPlainParams ==
+  {Named([type |-> "array", cf |-> "pipes", items |-> [type |-> "array", cf |-> "csv", items |-> [type |-> t]]], loc, FALSE) :
+      t \in {"integer", "boolean", "string"}, loc \in {"query", "header", "formData"}}
 ArrayDefaultParams ==
   {Put(Named(ArrayOf("i_int", cf), loc, FALSE), "default", Arr(<<Num(4), Num(6)>>)) : cf \in {"none", "pipes"}, loc \in {"query", "header"}}
 
 Params == {p \in ScalarParams : ScalarOK(p)} \cup DefaultParams \cup AllowEmptyParams
-          \cup {p \in ArrayParams : ArrayOK(p)} \cup ArrayCountParams \cup NestedParams \cup ArrayDefaultParams
+          \cup {p \in ArrayParams : ArrayOK(p)} \cup ArrayCountParams \cup NestedParams \cup NestedPlainParams \cup ArrayDefaultParams
 
 \* ---- raw fragments ----------------------------------------------------------------------
 Absent1 == [present |-> FALSE, vals |-> <<>>]
@@ -112,13 +116,17 @@ ArrayFrags(p) ==
                \cup {Two(<<x, ",", y>>, <<y>>) : x \in {"2", "a"} \cap ItemLexemes(p.items), y \in {"5", "ab"} \cap ItemLexemes(p.items)}
                \cup {[present |-> TRUE, vals |-> <<<<x>>, <<y>>, <<x>>, <<y>>>>] : x \in {"2", "a"} \cap ItemLexemes(p.items), y \in {"5", "ab"} \cap ItemLexemes(p.items)}
           ELSE {})
+NestedPlainFrags(p) ==
+  LET L == ItemLexemes(p.items.items) IN
+  {Absent1, One(<<>>)} \cup {One(<<x>>) : x \in L} \cup {One(<<x, ",", y>>) : x \in L, y \in L}
+  \cup {One(<<x, ",", y, "|", x>>) : x \in L, y \in L} \cup {One(<<x, "|", y, "|", x, ",", y>>) : x \in {"2", "true", "a"} \cap L, y \in L}
 NestedFrags ==
   {Absent1, One(<<>>), One(<<"1">>), One(<<"1", ",", "2">>), One(<<"1", ",", "2", "|", "5">>), One(<<"1", ",", "2", ",", "5">>),
    One(<<"1", "|", "2", "|", "5">>), One(<<"6", "|", "1">>), One(<<"x1", "|", "1">>), One(<<"1", ",", "2", "|", "1", ",", "2", ",", "5">>)}
 
 Frags(p) ==
   IF p.type # "array" THEN ScalarFrags(p)
-  ELSE IF p.items.type = "array" THEN NestedFrags
+  ELSE IF p.items.type = "array" THEN (IF Has(p.items, "maxItems") THEN NestedFrags ELSE NestedPlainFrags(p))
   ELSE ArrayFrags(p)
 
 =============================================================================
